@@ -22,11 +22,18 @@ from selftest import mutants             # noqa: E402
 REPO = extract.REPO
 
 
-def make_scratch(edits):
+def make_scratch(edits, patch=None):
     d = tempfile.mkdtemp(prefix="fjall-st-")
     for f in ("Cargo.toml", "Cargo.lock"):
         shutil.copy(os.path.join(REPO, f), os.path.join(d, f))
     shutil.copytree(os.path.join(REPO, "src"), os.path.join(d, "src"))
+    if patch:
+        # a stored seeded change (seeded/<id>/patch.diff): applied like `git -C /repo apply`
+        subprocess.run(["git", "init", "-q", "."], cwd=d, stdout=subprocess.DEVNULL, stderr=subprocess.DEVNULL)
+        r = subprocess.run(["git", "apply", patch], cwd=d, stdout=subprocess.PIPE, stderr=subprocess.STDOUT, text=True)
+        shutil.rmtree(os.path.join(d, ".git"), ignore_errors=True)
+        if r.returncode != 0:
+            return d, "patch does not apply to the current tree: %s" % r.stdout.strip()[:120]
     for e in edits:
         p = os.path.join(d, e["file"])
         if not os.path.exists(p):
@@ -73,7 +80,7 @@ def run_checks(scratch, props, slot):
 def one(args):
     m, slot, keep = args
     t0 = time.time()
-    scratch, err = make_scratch(m["edits"])
+    scratch, err = make_scratch(m["edits"], m.get("patch"))
     rec = {"id": m["id"], "kind": m["kind"], "status": None, "detail": "", "wall_s": 0}
     try:
         if err:
@@ -87,8 +94,7 @@ def one(args):
             rec["detail"] = "mutant does not build: %s" % e
             return rec
         if m["kind"] == "break":
-            p = m["props"][0]
-            keys = [k for k, _ in res[p]]
+            keys = [k for p in m["props"] for k, _ in res.get(p, [])]
             hit = [k for k in keys if k.startswith(m["expect"])]
             rec["status"] = "detected" if hit else "MISSED"
             rec["detail"] = "; ".join(hit[:3]) if hit else "expected key prefix %s; got %s" % (m["expect"], keys[:5])
